@@ -220,6 +220,9 @@ func (l *SeqContext1) encode() []byte {
 	}
 	coverageOffset := total
 	total += l.Cov.EncodeLen()
+	if coverageOffset > 0xFFFF {
+		panic("SeqContext1 too large")
+	}
 
 	buf := make([]byte, 0, total)
 	buf = append(buf,
@@ -235,11 +238,17 @@ func (l *SeqContext1) encode() []byte {
 			continue
 		}
 		seqRuleCount := len(rules)
+		if seqRuleCount > 0xFFFF {
+			panic("too many rules in rule set")
+		}
 		buf = append(buf,
 			byte(seqRuleCount>>8), byte(seqRuleCount),
 		)
 		pos := 2 + 2*seqRuleCount
 		for _, rule := range rules {
+			if pos > 0xFFFF {
+				panic("rule set too large")
+			}
 			buf = append(buf,
 				byte(pos>>8), byte(pos),
 			)
@@ -248,6 +257,9 @@ func (l *SeqContext1) encode() []byte {
 		for _, rule := range rules {
 			glyphCount := len(rule.Input) + 1
 			seqLookupCount := len(rule.Actions)
+			if glyphCount > 0xFFFF || seqLookupCount > 0xFFFF {
+				panic("rule too large")
+			}
 			buf = append(buf,
 				byte(glyphCount>>8), byte(glyphCount),
 				byte(seqLookupCount>>8), byte(seqLookupCount),
@@ -489,11 +501,17 @@ func (l *SeqContext2) encode() []byte {
 			continue
 		}
 		seqRuleCount := len(rules)
+		if seqRuleCount > 0xFFFF {
+			panic("too many rules in rule set")
+		}
 		buf = append(buf,
 			byte(seqRuleCount>>8), byte(seqRuleCount),
 		)
 		pos := 2 + 2*seqRuleCount
 		for _, rule := range rules {
+			if pos > 0xFFFF {
+				panic("rule set too large")
+			}
 			buf = append(buf,
 				byte(pos>>8), byte(pos),
 			)
@@ -502,6 +520,9 @@ func (l *SeqContext2) encode() []byte {
 		for _, rule := range rules {
 			glyphCount := len(rule.Input) + 1
 			seqLookupCount := len(rule.Actions)
+			if glyphCount > 0xFFFF || seqLookupCount > 0xFFFF {
+				panic("rule too large")
+			}
 			buf = append(buf,
 				byte(glyphCount>>8), byte(glyphCount),
 				byte(seqLookupCount>>8), byte(seqLookupCount),
@@ -627,7 +648,13 @@ func (l *SeqContext3) encode() []byte {
 
 	total := 6 + 2*len(l.Input) + 4*len(l.Actions)
 	coverageOffsets := make([]uint16, glyphCount)
+	if glyphCount > 0xFFFF || seqLookupCount > 0xFFFF {
+		panic("SeqContext3 too large")
+	}
 	for i, cov := range l.Input {
+		if total > 0xFFFF {
+			panic("SeqContext3 too large")
+		}
 		coverageOffsets[i] = uint16(total)
 		total += cov.ToTable().EncodeLen()
 	}
@@ -880,11 +907,17 @@ func (l *ChainedSeqContext1) encode() []byte {
 	chainedSeqRuleSetCount := len(l.Rules)
 	total := 6 + 2*len(l.Rules)
 	coverageOffset := total
+	if coverageOffset > 0xFFFF {
+		panic("ChainedSeqContext1 too large")
+	}
 	total += l.Cov.EncodeLen()
 	chainedSeqRuleSetOffsets := make([]uint16, chainedSeqRuleSetCount)
 	for i, rules := range l.Rules {
 		if rules == nil {
 			continue
+		}
+		if total > 0xFFFF {
+			panic("ChainedSeqContext1 too large")
 		}
 		chainedSeqRuleSetOffsets[i] = uint16(total)
 		total += 2 + 2*len(rules)
@@ -913,12 +946,18 @@ func (l *ChainedSeqContext1) encode() []byte {
 			continue
 		}
 		chainedSeqRuleCount := len(rules)
+		if chainedSeqRuleCount > 0xFFFF {
+			panic("too many rules in rule set")
+		}
 		buf = append(buf,
 			byte(chainedSeqRuleCount>>8), byte(chainedSeqRuleCount),
 		)
 
 		pos := 2 + 2*chainedSeqRuleCount
 		for _, rule := range rules {
+			if pos > 0xFFFF {
+				panic("ChainedSeqContext1 too large")
+			}
 			buf = append(buf,
 				byte(pos>>8), byte(pos),
 			)
@@ -929,6 +968,10 @@ func (l *ChainedSeqContext1) encode() []byte {
 		}
 		for _, rule := range rules {
 			backtrackGlyphCount := len(rule.Backtrack)
+			if backtrackGlyphCount > 0xFFFF || len(rule.Input) >= 0xFFFF ||
+				len(rule.Lookahead) > 0xFFFF || len(rule.Actions) > 0xFFFF {
+				panic("rule too large")
+			}
 			buf = append(buf,
 				byte(backtrackGlyphCount>>8), byte(backtrackGlyphCount),
 			)
@@ -1241,6 +1284,9 @@ func (l *ChainedSeqContext2) encode() []byte {
 	total += l.Input.AppendLen()
 	lookaheadOffset := total
 	total += l.Lookahead.AppendLen()
+	if coverageOffset > 0xFFFF || backtrackOffset > 0xFFFF || inputOffset > 0xFFFF || lookaheadOffset > 0xFFFF {
+		panic("ChainedSeqContext2 too large")
+	}
 	chainedSeqRuleSetOffsets := make([]uint16, chainedSeqRuleSetCount)
 	for i, rr := range l.Rules {
 		if rr == nil {
@@ -1282,6 +1328,9 @@ func (l *ChainedSeqContext2) encode() []byte {
 			continue
 		}
 		chainedSeqRuleCount := len(rr)
+		if chainedSeqRuleCount > 0xFFFF {
+			panic("too many rules in rule set")
+		}
 		buf = append(buf,
 			byte(chainedSeqRuleCount>>8), byte(chainedSeqRuleCount),
 		)
@@ -1301,6 +1350,10 @@ func (l *ChainedSeqContext2) encode() []byte {
 		}
 		for _, rule := range rr {
 			backtrackGlyphCount := len(rule.Backtrack)
+			if backtrackGlyphCount > 0xFFFF || len(rule.Input) >= 0xFFFF ||
+				len(rule.Lookahead) > 0xFFFF || len(rule.Actions) > 0xFFFF {
+				panic("rule too large")
+			}
 			buf = append(buf,
 				byte(backtrackGlyphCount>>8), byte(backtrackGlyphCount),
 			)
@@ -1499,20 +1552,32 @@ func (l *ChainedSeqContext3) encode() []byte {
 	total += 2 * len(l.Input)
 	total += 2 * len(l.Lookahead)
 	total += 4 * len(l.Actions)
+	if total > 0xFFFF {
+		panic("ChainedSeqContext3 too large")
+	}
 	backtrackCoverageOffsets := make([]uint16, backtrackGlyphCount)
 	for i, set := range l.Backtrack {
+		if total > 0xFFFF {
+			panic("ChainedSeqContext3 too large")
+		}
 		backtrackCoverageOffsets[i] = uint16(total)
 		cov := set.ToTable()
 		total += cov.EncodeLen()
 	}
 	inputCoverageOffsets := make([]uint16, inputGlyphCount)
 	for i, set := range l.Input {
+		if total > 0xFFFF {
+			panic("ChainedSeqContext3 too large")
+		}
 		inputCoverageOffsets[i] = uint16(total)
 		cov := set.ToTable()
 		total += cov.EncodeLen()
 	}
 	lookaheadCoverageOffsets := make([]uint16, lookaheadGlyphCount)
 	for i, set := range l.Lookahead {
+		if total > 0xFFFF {
+			panic("ChainedSeqContext3 too large")
+		}
 		lookaheadCoverageOffsets[i] = uint16(total)
 		cov := set.ToTable()
 		total += cov.EncodeLen()
